@@ -303,7 +303,9 @@ pub fn make_case(lines: &[String], path_s: &str, faults: usize) -> Case {
     if any_missing { tags.push("missing_node".into()); }
     if all_r.iter().any(|r| r.missing) { tags.push("missing_reported".into()); }
     if non_ascii { tags.push("non_ascii".into()); }
+    // since the fix in /repo every display must cite its location: such a case is a DIFF (verdict 6/11), the tag only names it
     if pretty_uncited > 0 { tags.push("pretty_without_position".into()); }
+    if all_r.iter().any(|r| r.missing) && pretty_uncited == 0 { tags.push("missing_pretty_cited".into()); }
     if panics > 0 { tags.push("display_panicked".into()); }
     if src.contains("\r\n") { tags.push("crlf".into()); }
     if !src.ends_with('\n') { tags.push("no_final_newline".into()); }
